@@ -73,6 +73,7 @@ SymOps == IF Small THEN {<<"+", "PLUS">>, <<"=", "ASSIGN">>, <<"**", "STAR2">>} 
           {<<"+", "PLUS">>, <<"-", "MINUS">>, <<"*", "STAR">>, <<"**", "STAR2">>, <<"/", "FSLASH">>,
            <<"<", "LT">>, <<">", "GT">>, <<"<=", "LE">>, <<">=", "GE">>, <<"=", "ASSIGN">>,
            <<"^=", "NE">>, <<"~=", "NE">>, <<"#", "HASH">>, <<"|", "PIPE">>}
+PctOps == IF Small THEN {<<"*", "STAR">>} ELSE {<<"+", "PLUS">>, <<"-", "MINUS">>, <<"*", "STAR">>}
 MnemOps == IF Small THEN {<<"eq", "KwEQ">>, <<"and", "KwAND">>} ELSE
            {<<"eq", "KwEQ">>, <<"NE", "KwNE">>, <<"lt", "KwLT">>, <<"le", "KwLE">>, <<"gt", "KwGT">>,
             <<"GE", "KwGE">>, <<"and", "KwAND">>, <<"or", "KwOR">>, <<"in", "KwIN">>}
@@ -225,7 +226,12 @@ Prods(sym, rich) ==
     [] sym = "Operand" ->
          {<<<<"int", i>>>> : i \in Ints} \cup Seq1({T(wd) : wd \in Words}) \cup
          {<<NT("MVarRef")>>, <<NT("SQuoted")>>, <<NT("DQuoted")>>} \cup
-         (IF rich THEN {<<NT("Call")>>, <<D("(", "LPAREN"), w, NT("Expr"), wb, D(")", "RPAREN")>>} ELSE {})
+         (IF rich THEN {<<NT("Call")>>, <<D("(", "LPAREN"), w, NT("Expr"), wb, D(")", "RPAREN")>>} \cup
+                       \* a literal percent is text; the symbol glued to it is still an operator token (only %= %^ %~
+                       \* are quoted operators) and a parenthesis glued to it still counts for the nesting
+                       {<<T("%"), D(o[1], o[2]), w, NT("Operand")>> : o \in PctOps} \cup
+                       {<<T("%"), D("(", "LPAREN"), w, NT("Expr"), wb, D(")", "RPAREN")>>}
+          ELSE {})
     [] sym = "NameExpr" ->
          Seq1({T(n) : n \in Names}) \cup {<<NT("MVarName")>>, <<T("pre"), NT("MVarName")>>, <<T("&mv.x")>>,
           <<T("%mac2")>>, <<T("%m(a)")>>, <<T("pre%m")>>, <<T("%m"), NT("MVarName")>>}
